@@ -9,8 +9,8 @@ Tie: the extracted model (ocaml/c17) and the real crate (harness bin c17) run on
  * std::str::from_utf8 against the model's utf8_valid (all 1- and 2-byte strings, boundary 3-/4-byte ones);
  * DuplexConn::connect_to_bus against scripted servers on unix sockets (path and abstract), under the
    process's uid and, by setuid in a child, several other uids.
-Observables compared: Ok(path)/Ok(abstract)/Err/panic for addresses; result class and the exact bytes the
-server received for handshakes; never error variants or timing.
+Observables compared: Ok(path)/Ok(abstract)/Err/panic for addresses; success/failure and the exact bytes the
+server received for handshakes (panic and a confirmed hang are observables); never error variants or timing.
 """
 import glob
 import hashlib
@@ -22,7 +22,7 @@ import subprocess
 import vlib
 
 CRLF = b"\r\n"
-DRIFT_HASH = "b3e9ebcb91c1"  # normalised text of the anchored functions when the model was written
+DRIFT_HASH = "7ae7b00ba233"  # normalised text of the anchored functions when the model was written
 
 
 # ------------------------------------------------------------------ helpers
@@ -395,15 +395,16 @@ def judge_hs(uid, sc, cls, S, M, W=0):
     all_server = b"".join(b"".join(ch) for ch, _ in sc.steps)
 
     def ok_line(l, word):
-        # the text does not say that an answer must be UTF-8 to count as OK; the model (like the code) turns a
+        # the reply accepts iff its first space-separated word is exactly the command (OKAY, OKfoo, AGREE_UNIX_FDX do
+        # not). The text does not say that an answer must be UTF-8 to count; the model (like the code) turns a
         # non-UTF-8 line into an error - a difference there is reported as a broken tie, not as a violation
-        return l is not None and l.startswith(word)
+        return l is not None and l.split(b" ", 1)[0] == word
     if det:
         acc1 = ok_line(l1, b"OK")
         acc2 = ok_line(l2, b"AGREE_UNIX_FD")
     else:   # over-approximation: some line the server sent could have been taken as the answer
-        acc1 = any(seg.startswith(b"OK") for seg in all_server.split(CRLF)[:-1])
-        acc2 = any(seg.startswith(b"AGREE_UNIX_FD") for seg in all_server.split(CRLF)[:-1])
+        acc1 = any(ok_line(seg, b"OK") for seg in all_server.split(CRLF)[:-1])
+        acc2 = any(ok_line(seg, b"AGREE_UNIX_FD") for seg in all_server.split(CRLF)[:-1])
     need = acc1 and (acc2 or not sc.fd)
     begin = b"BEGIN" + CRLF
     if cls == "ok" and not need:
@@ -416,19 +417,17 @@ def judge_hs(uid, sc, cls, S, M, W=0):
         return "success reported without the complete client conversation on the wire"
     if cls == "ok" and sc.probe and M != "ok":
         return "the message the server sent after BEGIN did not arrive intact (%s)" % M
-    if det and cls == "authfailed" and acc1 and is_utf8(l1):
-        return "AuthFailed although the server answered OK"
-    if det and cls == "fdfailed" and (not sc.fd or (acc2 and is_utf8(l2))):
-        return "UnixFdNegotiationFailed although the server agreed"
     return None
 
 
-A1 = [b"OK 1234deadbeef", b"OK", b"OKAY", b"OK\t", "OK гуид".encode(), b"OK\n", b"OK\r", b"OK a\rb"]
-R1 = [b"REJECTED EXTERNAL", b"REJECTED", b"ERROR", b'ERROR "x"', b"DATA 1234", b"ok 123", b" OK", b"", b"O", b"garbage \x01\x02",
+A1 = [b"OK 1234deadbeef", b"OK", b"OK ", b"OK  1234", "OK гуид".encode(), b"OK a\rb", b"OK x\ny", b"OK OK", b"OK\x201234 5678"]
+R1 = [b"OKAY", b"OKfoo", b"OK\t1234", b"OK\t", b"OK\n", b"OK\r", b"OK1234", b"OK_", b"OK,1", b"Ok 1", b"oK", b"OK\xc2\xa01",
+      b"REJECTED EXTERNAL", b"REJECTED", b"ERROR", b'ERROR "x"', b"DATA 1234", b"ok 123", b" OK", b"", b"O", b"garbage \x01\x02",
       b"AGREE_UNIX_FD", b"K", b"a\rb", b"a\nb", b"\r", b"\n", b"REJECTED OK", b"0K"]
 N1 = [b"\xff\xfe", b"OK \xff", b"OK \xc3", b"\xed\xa0\x80", b"OK \xf4\x90\x80\x80", b"\xc0\xaf"]
-A2 = [b"AGREE_UNIX_FD", b"AGREE_UNIX_FD extra", b"AGREE_UNIX_FDX"]
-R2 = [b"ERROR", b"AGREE_UNIX_F", b"agree_unix_fd", b"OK 123", b"", b"REJECTED", b" AGREE_UNIX_FD", b"a\rb"]
+A2 = [b"AGREE_UNIX_FD", b"AGREE_UNIX_FD extra", b"AGREE_UNIX_FD ", b"AGREE_UNIX_FD  x"]
+R2 = [b"AGREE_UNIX_FDX", b"AGREE_UNIX_FDS extra", b"AGREE_UNIX_FD\textra", b"AGREE_UNIX_FD_", b"AGREE", b"Agree_unix_fd",
+      b"ERROR", b"AGREE_UNIX_F", b"agree_unix_fd", b"OK 123", b"OK", b"", b"REJECTED", b" AGREE_UNIX_FD", b"a\rb"]
 N2 = [b"\xff\xfe", b"AGREE_UNIX_FD \xff"]
 OKL = b"OK 1234deadbeef" + CRLF
 AGL = b"AGREE_UNIX_FD" + CRLF
@@ -614,7 +613,7 @@ def run(ctx):
                 "(missing ':', other transports, pairs without '=', empty values, repeated/reordered pairs, truncation, ';' lists, non-UTF-8 "
                 "bytes), resolved through DBUS_SESSION_BUS_ADDRESS and judged by an independent reading of the grammar (no ';', every piece key=value, exactly one path|abstract key, non-empty value); non-trivial = starts with 'unix:' and has a path/abstract key. "
                 "utf-8: all 1- and 2-byte strings and boundary 3-/4-byte sequences; non-trivial = contains a byte >= 0x80. "
-                "handshakes: scripted servers - every reply class per step (OK.., REJECTED, ERROR, DATA, OKAY, garbage, non-UTF-8, empty, bare "
+                "handshakes: scripted servers - every reply class per step (OK, OK <guid>, OK followed by two spaces / a tab / nothing, OKAY, OKfoo, lower case, REJECTED, ERROR, DATA, AGREE_UNIX_FD[ extra], AGREE_UNIX_FDX, garbage, non-UTF-8, empty, bare "
                 "CR/LF, lines of 509..1500 bytes), lines of 16382..16385, 16894..16896, 20000 and 100000 bytes around the 16 KiB limit (delivered in lockstep - the server writes a chunk only after SIOCOUTQ shows the previous one was read; for 512-byte chunks chunk = read and the boundary is exact -, byte-wise at the end, and as one large write; whenever the read grouping is up to the kernel (short chunks, one large write) lines of 16384..16894 bytes are judged by the predicate only), servers that stream bytes without a line ending until the client closes (result class compared strictly; the bytes the server got rid of are only required to stay below 2*(16384+512) plus 4 MiB of socket-buffer slack, the kernel buffers on behalf of the client), every 2-cut of each reply line, byte-wise and random k-cuts, close after k reply bytes for "
                 "every k, close after k client bytes for every k, two lines per chunk, unsolicited greeting, message after BEGIN, random "
                 "compositions; on path and abstract sockets; under the own uid and setuid children; non-trivial = the server sends at least one byte; "
@@ -628,6 +627,9 @@ def run(ctx):
                        "wrote, 0 after the peer closed; writes fail once the peer has shut down (modelled in Conn/Auth.v sock_write/sock_read)",
                        "the environment variable and paths are byte strings without NUL; PathBuf::exists = a successful stat()",
                        "sockaddr_un.sun_path has 108 bytes (Linux); usize is 64 bit",
+                       "SIGPIPE is ignored in the connecting process (as the Rust runtime does for a Rust main, and as the harness runs): "
+                       "do_auth sends the NUL byte with sendmsg without MSG_NOSIGNAL, so in a process with the default disposition a server "
+                       "that closes at accept can kill the client instead of connect_to_bus returning an error (c17 --sigpipe-demo N shows it)",
                        "connect(2) itself succeeds (a listener exists); a server that neither answers nor closes leaves the client waiting in read() - "
                        "connect_to_bus has no timeout (model result Blocked, theorem C17_auth_result)"]
     ctx.try_proof()
@@ -821,8 +823,20 @@ def _run(ctx, thorough, exe, drv, work):
             if hs_samples < 5 and sc.tag in ("cutk", "close2", "pipelined", "class1", "probe") and (hs_samples + len(sc.text())) % 3 == 0:
                 hs_samples += 1
                 ctx.samples.append({"uid": uid, "with_fd": sc.fd, "script": sc.text(), "impl": li, "model": lm})
-            if i["cls"] == "hang":
-                hung = True
+            if (i["cls"] == "hang" or i["cls"] == "skipped") and not hung:
+                # a hang detector fired (4 s): before it counts, the script is run again alone with a 20 s deadline
+                # (once a hang has been confirmed this way, further ones count directly)
+                try:
+                    _, out_r, _ = run_proc(cmd, [sc.harness_line()], cwd=work, env=dict(env, C17_DEADLINE_MS="20000"), timeout=150)
+                except subprocess.TimeoutExpired:
+                    out_r = []
+                if len(out_r) == 2 and not out_r[1].startswith("hang"):
+                    ctx.extra["slow_but_returned_on_rerun"] = ctx.extra.get("slow_but_returned_on_rerun", 0) + 1
+                    li = out_r[1]
+                    i = parse_hs(li)
+                else:
+                    hung = True
+                    i = dict(i, cls="hang")
             if i["cls"] == "skipped":
                 tie(ctx, "harness stopped after repeated hangs", sc.harness_line())
                 continue
@@ -842,11 +856,14 @@ def _run(ctx, thorough, exe, drv, work):
             if sc.garbage:
                 ctx.extra.setdefault("garbage_server_bytes_written", []).append(int(i.get("W", "0")))
             if det:
-                mcls = {"ok": "ok", "authfailed": "authfailed", "fdfailed": "fdfailed", "err": "err"}[m["cls"]]
-                if i["cls"] != mcls or S != unhx(m["S"]):
+                # the property distinguishes success from failure and says which bytes may be on the wire (no BEGIN after a
+                # refusal); it does not name error variants, so AuthFailed / UnixFdNegotiationFailed / io errors are one class
+                if (i["cls"] == "ok") != (m["cls"] == "ok") or S != unhx(m["S"]):
                     ctx.disagreements_checked += 1
-                    tie(ctx, "correspondence: handshake result or client bytes differ from the model "
+                    tie(ctx, "correspondence: success/failure or client bytes differ from the model "
                                    "(the property predicate holds on the implementation's output)", str(data))
+                elif i["cls"] != m["cls"]:
+                    ctx.extra["error_variant_differs_from_model_not_judged"] = ctx.extra.get("error_variant_differs_from_model_not_judged", 0) + 1
             else:
                 if i["cls"] not in ("err", "authfailed", "fdfailed", "ok"):
                     tie(ctx, "unexpected result class", str(data))
@@ -856,6 +873,14 @@ def _run(ctx, thorough, exe, drv, work):
                 dropped_report.append({"script": sc.text(), "with_fd": sc.fd, "result_impl": i["cls"], "result_model": m["cls"],
                                        "bytes_after_first_line_dropped_by_model": lost.decode("latin-1")})
     ctx.extra["uids_exercised"] = uids_done
+    missing = sorted(set("0123456789") - set("".join(str(u) for u in uids_done)))
+    ctx.extra["uid_digits_exercised_against_the_implementation"] = "all ten" if not missing else (
+        "digits %s of get_uid_as_hex were not exercised against the implementation (setuid not possible here); the model side is "
+        "compared with hex(str(uid)) for all of them" % ",".join(missing))
+    rc_m, out_m, _ = run_proc([drv], ["x %d" % u for u in (0, 1234567890, 89, 4294967295, 9876543210 % 2 ** 32)])
+    for u, l in zip((0, 1234567890, 89, 4294967295, 9876543210 % 2 ** 32), out_m):
+        if l != hx(uid_hex(u)):
+            tie(ctx, "model get_uid_as_hex differs from hex(str(uid))", "%d: %s" % (u, l))
     ctx.extra["pipelining"] = {
         "what": "read_message reads up to 512 bytes into a local buffer and drops what follows the first CR LF: a server that sends "
                 "the next reply (or the first message) in the same write loses those bytes; bytes arriving in a later read stay in the socket "
